@@ -68,6 +68,10 @@ CHECKS = {
             "TLC checks on OFXCompose that a reference composition satisfies every clause for all request sequences up to the bound and that each single deviation (wrapper dropped/added, same-kind wrappers swapped, TRNUID repeated, wrong message set, CLIENTUID below 1.0.3, wrong password) falsifies one; seeded client configurations (all 11 versions, formats, identity subsets, credentials and ids with markup characters) x request mixes up to 12 plus account-info/profile/tax calls are composed with dryrun=True, and TLC reads the returned bytes itself and evaluates the clauses (header version, one sign-on with exactly the supplied identity, one wrapper per request under the right message set, per-kind order and contents, distinct TRNUIDs, 2xx refuses unclosed).",
             "Trusted: TLC, the three file layers, the clause reading of the property. The relative order of different kinds inside a message set is left free; INVSTMTRQ may omit INCTRAN when transactions are not wanted.",
             "DESIGN.md section 6 C06"),
+    "C19": ("TLA+ OFXCompose selection rule (command line > ACTIVE accounts of the account-information response > configuration) evaluated by TLC on the statement request ofxget really emits, compared per kind as a bag",
+            "Seeded account multisets per type from the command line, the user configuration, or (--all) a fake server's account-information response with any status mix, x stmt/stmtend x dates x include flags are run through ofxget's real argument parser, merge_config and handlers (modules re-imported per run); the request ofxget prints or POSTs is read by TLC (OFXFile) and each kind's wrappers are compared as a bag (account id, type, bank/broker id, dates as instants, flags) with the selection the specification computes - none missing, duplicated, of another type, or inactive.",
+            "Trusted: TLC, the selection reading of the property, the fake server responses (built from TLC's minimal documents). With --all the user configuration lists no accounts (the property is silent on mixing them); one bank id / broker id per response.",
+            "DESIGN.md section 6 C19"),
 }
 
 PENDING = {}
